@@ -774,3 +774,33 @@ def through_tuples(body, op, depth=4):
                 continue
         out.add(l)
     return out
+
+
+def const_bool_under(body, op, region, depth=4):
+    """Value of a bool operand if, restricted to definitions located in `region` (blocks reachable under some variant
+    assumption), it can only be one constant; follows copies and `!`.  None if unknown."""
+    if op["k"] == "const":
+        v = op.get("val")
+        return bool(v) if v in (0, 1, True, False) else None
+    if op["k"] not in ("copy", "move") or op["place"]["p"] or depth < 0:
+        return None
+    l = op["place"]["l"]
+    vals = set()
+    for d in body.defs().get(l, []):
+        if d[1] not in region:
+            continue
+        if d[0] != "assign":
+            return None
+        rv = d[3]["rv"]
+        if rv["k"] == "use":
+            v = const_bool_under(body, rv["op"], region, depth - 1)
+        elif rv["k"] == "unop" and rv.get("op") == "Not":
+            inner = rv.get("x") or rv.get("operand") or rv.get("o")
+            v = const_bool_under(body, inner, region, depth - 1) if isinstance(inner, dict) else None
+            v = (not v) if v is not None else None
+        else:
+            v = None
+        if v is None:
+            return None
+        vals.add(v)
+    return next(iter(vals)) if len(vals) == 1 else None
